@@ -1,7 +1,27 @@
 # -*- coding: utf-8 -*-
+import re
+
 from .._compat import number_types, string_types
 
+LONG_INTEGER = re.compile(r'[+-]?[0-9]{600,}\Z')
+
+
+def long_integer(digits):
+    sign = -1 if digits.startswith('-') else 1
+    digits = digits.lstrip('+-')
+    value = 0
+    for start in range(0, len(digits), 600):
+        piece = digits[start:start + 600]
+        value = value * 10 ** len(piece) + int(piece)
+    return sign * value
+
+
 def to_number(number):
+    if isinstance(number, string_types) and LONG_INTEGER.match(number):
+        # int() refuses digit strings longer than sys.get_int_max_str_digits() (4300 by
+        # default); float() then overflows and the digits used to come back as text.
+        # Whole numbers have no such limit: read them in pieces.
+        return long_integer(number)
     if isinstance(number, number_types):
         return number
     if isinstance(number, string_types) and '_' not in number:
